@@ -88,7 +88,11 @@ func writeShards(dir, prop string, imports string, scenTy, obsTy, admits, spec s
 				fmt.Fprintf(&sb, "  (%d,\n   %s,\n   %s)", c.id, c.scen, c.obs)
 			}
 			sb.WriteString("\n].\n")
-			fmt.Fprintf(&sb, "Definition ctl := Eval vm_compute in accepted (fun s o => andb (%s s o) (%s s o)) controls.\nPrint ctl.\n", admits, spec)
+			acc := "accepted"
+			if scenTy != "escen" {
+				acc = "accepted_s"
+			}
+			fmt.Fprintf(&sb, "Definition ctl := Eval vm_compute in %s (fun s o => andb (%s s o) (%s s o)) controls.\nPrint ctl.\n", acc, admits, spec)
 		}
 		name := filepath.Join(dir, fmt.Sprintf("cases_%s_%d.v", prop, nsh))
 		if err := os.WriteFile(name, []byte(sb.String()), 0o644); err != nil {
@@ -157,6 +161,8 @@ func main() {
 	switch family {
 	case "engine":
 		err = engineMain(*prop, *tier, *seed, *out, *replay)
+	case "store":
+		err = storeMain(*prop, *tier, *seed, *out, *replay)
 	default:
 		err = fmt.Errorf("unknown family %q", family)
 	}
